@@ -68,6 +68,21 @@ theorem verify_comparisons :
       ("load.node.fragmentCount", "!="), ("load.graph.nodeCount", "!="), ("load.graph.edgeCount", "!=")] ∧
     bytesGuard = ">=" ∧ validateBytesNonneg = "<" := by decide
 
+/-- Model `requireEOF`: every `n, err := r.Read(p)` of the package examines `n` before `err` (a reader may
+return its last bytes together with `io.EOF`; `eof_check_contract` vs `eof_check_err_first_unsound`). The only
+such call site is the end-of-stream probe of the envelope reader; a new site or a swapped order changes the fact. -/
+theorem read_sites_n_first : readSites = ["requireEncryptedArchiveEOF:n-first"] := by decide
+
+/-- Model `decodeWhole` (`manifest_decode_total_input`): manifest.json and the archive header are decoded by
+`json.Unmarshal` on the WHOLE byte slice; the dump checkpoint (shared with C19) and every JSON line by a Decoder
+whose first value is followed by an explicit end-of-input check. The key envelope reader takes the first value of
+its stream and ignores what follows — recorded as it is: the key is the same key, the tie checks that such a file
+opens nothing but what the key opens. A decoder that stops after the first value of manifest.json changes the fact. -/
+theorem json_decoders_total :
+    jsonDecoders = ["readManifest:unmarshal-whole-slice", "readDumpCheckpoint:decoder+eof-check",
+      "readEncryptedArchiveHeader:unmarshal-whole-slice", "readCompressedJSONLinesFromReader:decoder+eof-check",
+      "readArchiveKeyBytes:decoder-first-value"] := by decide
+
 /-- Model `extractOne`: `O_EXCL` (and `O_CREATE`, no `O_TRUNC`) on the open call; inside the loop the
 sanitiser, the duplicate check and the typeflag allow-list `{TypeReg, TypeRegA}` precede the extraction
 call, which receives the sanitised path. -/
